@@ -64,6 +64,10 @@ def gen_cases(tier, seed):
     # one minishard with 64 chunks (long minishard index, read through Range requests)
     cases.append({"kind": "shard", "dseed": 1, "directed_cfg": 0})
     cases.append({"kind": "legacy", "dseed": 2, "directed_cfg": 0})
+    # more than 64 shards; 256 KiB chunks in a 1.5 MiB minishard; > 4 KiB minishards
+    cases.append({"kind": "shard", "dseed": 3, "directed_cfg": 4})
+    cases.append({"kind": "shard", "dseed": 4, "directed_cfg": 5})
+    cases.append({"kind": "legacy", "dseed": 5, "directed_cfg": 7})
     return cases
 
 
